@@ -460,6 +460,26 @@ def optimise {σ : Type} (F : Finder σ) (E : Env) (p : Nat) (c : Coder) (opts :
   let opts := convertOpts P st.a.opts cur
   ⟨pending P d p opts cur P.opts 0, opts, pt, st.mf, st.ms, if r.2.2 then 1 else 0⟩
 
+/-- the longest match of the finder's list (`matches.len/dist[count - 1]`; `(0, 0)` for an empty list) -/
+def lastMatch (ms : List Match) : Match := ms.getLast?.getD (0, 0)
+
+/-- `main_len`: 0 without matches -/
+def mainLenOf (ms : List Match) : Nat := if ms.isEmpty then 0 else (lastMatch ms).1
+
+/-- `opts[1]` of the first part of `get_next_symbol`: `opts[1].set1(literal_price, 0, -1)`, then the short rep if the
+    bytes agree and it is cheaper -/
+def initOpt1 (E : Env) (p : Nat) (c : Coder) (opts : Opts) : Opts :=
+  let d := E.d
+  let posState := E.posState p
+  let curByte := byteAt d p
+  let matchByte := byteAt d (p - (c.rep0 + 1))
+  let literalPrice := litPrice E.pr E.ps curByte matchByte (byteAt d (p - 1)) p c.state
+  let opts := opts.modify 1 fun o => o.set1 literalPrice 0 (-1)
+  let anyMatch := anyMatchPrice E.ps c.state posState
+  let anyRep := anyRepPrice E.ps anyMatch c.state
+  let srp := shortRepPrice E.ps anyRep c.state posState
+  if matchByte = curByte ∧ srp < (oat opts 1).price then opts.modify 1 fun o => o.set1 srp 0 0 else opts
+
 /-- the optimiser path of `get_next_symbol` (taken when `opt_cur == opt_end`) after the initial
     `if read_ahead == -1 { find_matches() }`, at position `p < data.size`: `read_ahead = 0`, the finder has consumed
     position `p`, `ms` are its matches there.  `E.ps` / `E.pt` / `c` are the probabilities, price tables and coder
@@ -479,23 +499,16 @@ def nextCore {σ : Type} (F : Finder σ) (E : Env) (p : Nat) (c : Coder) (opts :
     -- `if rep_lens[rep_best] >= nice_len { back = rep_best; skip(len - 1); return len }`
     if bestLen ≥ E.nice then ⟨[(.rep best bestLen, bestLen)], opts, E.pt, F.skip d (bestLen - 1) mf, ms, 0⟩
     else
-      let last := ms.getLast?.getD (0, 0)
-      let mainLen := if ms.isEmpty then 0 else last.1
-      if !ms.isEmpty ∧ mainLen ≥ E.nice then
-        ⟨[(.mtch last.2 mainLen, mainLen)], opts, E.pt, F.skip d (mainLen - 1) mf, ms, 0⟩
+      let mainLen := mainLenOf ms
+      -- `if matches.count > 0 { …; if main_len >= nice_len { back = main_dist + REPS; skip(main_len - 1); return main_len } }`
+      if ms ≠ [] ∧ mainLen ≥ E.nice then
+        ⟨[(.mtch (lastMatch ms).2 mainLen, mainLen)], opts, E.pt, F.skip d (mainLen - 1) mf, ms, 0⟩
       else
         let curByte := byteAt d p
         let matchByte := byteAt d (p - (c.rep0 + 1))
         if mainLen < P.matchLenMin ∧ curByte ≠ matchByte ∧ bestLen < P.matchLenMin then ⟨[lit], opts, E.pt, mf, ms, 0⟩
         else
-          let posState := E.posState p
-          let literalPrice := litPrice E.pr E.ps curByte matchByte (byteAt d (p - 1)) p c.state
-          let opts := opts.modify 1 fun o => o.set1 literalPrice 0 (-1)
-          let anyMatch := anyMatchPrice E.ps c.state posState
-          let anyRep := anyRepPrice E.ps anyMatch c.state
-          let srp := shortRepPrice E.ps anyRep c.state posState
-          let opts :=
-            if matchByte = curByte ∧ srp < (oat opts 1).price then opts.modify 1 fun o => o.set1 srp 0 0 else opts
+          let opts := initOpt1 E p c opts
           let optEnd := max mainLen bestLen
           if optEnd < P.matchLenMin then
             -- `back = opts[1].back_prev; return 1`
